@@ -124,6 +124,29 @@ func c02LoadPrograms(ctx *Ctx) [][]tStmt {
 		{{Op: "V"}, {Op: "as", Str: "m"}, {Op: "out"}, {Op: "render", Tpl: "$m.name"}, {Op: "as", Str: "m"}},
 		{{Op: "V"}, {Op: "as", Str: "__current__"}, {Op: "out"}, {Op: "distinct", Strs: []string{"name"}}, {Op: "count"}},
 	}
+	// every kind of reader, reading ONLY through a mark taken one step earlier (under every nesting of a has-expression)
+	wrap := []func(h hExpr) hExpr{
+		func(h hExpr) hExpr { return h },
+		func(h hExpr) hExpr { return hExpr{Kind: "not", Es: []hExpr{h}} },
+		func(h hExpr) hExpr { return hExpr{Kind: "and", Es: []hExpr{*cond("w"), h}} },
+		func(h hExpr) hExpr { return hExpr{Kind: "or", Es: []hExpr{h, *cond("w")}} },
+		func(h hExpr) hExpr {
+			return hExpr{Kind: "not", Es: []hExpr{{Kind: "and", Es: []hExpr{{Kind: "or", Es: []hExpr{{Kind: "not", Es: []hExpr{h}}}}}}}}
+		},
+	}
+	readers := []tStmt{{Op: "hasKey", Strs: []string{"$m.name"}}, {Op: "distinct", Strs: []string{"$m.name"}}, {Op: "unwind", Str: "$m.tags"},
+		{Op: "render", Tpl: map[string]interface{}{"a": []interface{}{map[string]interface{}{"b": "$m.name"}}}}, {Op: "render", Tpl: "$m.name"}}
+	for _, w := range wrap {
+		h := w(*cond("$m.name"))
+		readers = append(readers, tStmt{Op: "has", Has: &h})
+	}
+	for _, r := range readers {
+		for _, mv := range []string{"out", "outE", "both"} {
+			out = append(out, []tStmt{{Op: "V"}, {Op: "as", Str: "m"}, {Op: mv}, r},
+				[]tStmt{{Op: "V"}, {Op: "as", Str: "m"}, {Op: mv}, r, {Op: "count"}},
+				[]tStmt{{Op: "V"}, {Op: "as", Str: "m"}, {Op: mv}, {Op: "as", Str: "n"}, {Op: "out"}, r, {Op: "select", Strs: []string{"n"}}})
+		}
+	}
 	n := ctx.Pick(500, 5000)
 	for i := 0; i < n; i++ {
 		p := []tStmt{{Op: []string{"V", "V", "E"}[rng.Intn(3)]}}
